@@ -11,6 +11,7 @@ import (
 	"crypto/ecdsa"
 	"crypto/ed25519"
 	"crypto/elliptic"
+	"encoding/base64"
 	"encoding/json"
 	"errors"
 	"fmt"
@@ -74,6 +75,12 @@ func GetED25519PublicKey(jwk *jws.JWK) (ed25519.PublicKey, error) {
 
 	// ed25519 panics if key size is wrong
 	if len(pubKey) != ed25519.PublicKeySize {
+		return nil, errors.New("ed25519: invalid key")
+	}
+
+	// the JWK decoder pads or truncates x to the key size, so the width of the encoded value is checked here
+	x, err := base64.RawURLEncoding.DecodeString(jwk.X)
+	if err != nil || len(x) != ed25519.PublicKeySize {
 		return nil, errors.New("ed25519: invalid key")
 	}
 
